@@ -8,7 +8,7 @@ RULE = ("cases = (bit stride b, length, input dtype, content pattern), enumerate
         "family of position lists and every window size 1..64/b against Python integers (one transition per observation); "
         "non-trivial = the packed array spans more than one 64-bit register or ends inside a register")
 ASSUMPTIONS = ["oracle: Python integers (sum(vals[i+j] << (b*j)))", "values fit in b bits (the statement's precondition)"]
-REQUIRED_FEATURES = ["length_not_multiple_of_register", "window_straddles_registers", "multi_register", "exhaustive_contents", "empty_array",
+REQUIRED_FEATURES = ["same_object_sequence", "boundary_bits", "length_not_multiple_of_register", "window_straddles_registers", "multi_register", "exhaustive_contents", "empty_array",
                      "position_list_with_repeats", "stride_64"]
 BOUNDS = {"quick": "b in {1,2,4,8,16,32,64} x lengths {0..5, p-1,p,p+1, 2p-1,2p,2p+1, 3p+2} (p=64/b) x every integer dtype that holds 2**b-1 x "
                    "{zeros, max, alternating, progression}; ALL contents for b=1 (L<=10) and b=2 (L<=5); every position, 6 position-list families, every window 1..p",
@@ -57,10 +57,27 @@ def cases(shard, tier):
     for n in _lengths(b, tier):
         for pat in ("zeros", "max", "alt", "prog"):
             yield [b, n, dt, pat]
+    if dt == _dtypes_for(b)[0]:
+        # all-zero arrays of 2p+1 elements with two elements next to a register boundary set to {1, top bit only, all ones}:
+        # every way a window can pick up or lose a bit when it straddles two registers
+        p = 64 // b
+        top = 2 ** b - 1
+        specials = sorted({1, 2 ** (b - 1), top})
+        pos = sorted({x for x in (p - 2, p - 1, p, p + 1, 2 * p - 1, 2 * p) if 0 <= x < 2 * p + 1})
+        for i in range(len(pos)):
+            for j in range(i, len(pos)):
+                for v1 in specials:
+                    for v2 in specials:
+                        yield [b, 2 * p + 1, dt, ["at", [[pos[i], v1], [pos[j], v2]]]]
 
 
 def _content(b, n, pat):
     top = 2 ** b - 1
+    if isinstance(pat, list) and pat[0] == "at":
+        out = [0] * n
+        for i, v in pat[1]:
+            out[i] = v
+        return out
     if isinstance(pat, list):
         return list(pat[1])
     if pat == "zeros":
@@ -84,7 +101,9 @@ def check(case, acc):
         acc.feature("length_not_multiple_of_register")
     if n > p:
         acc.feature("multi_register")
-    if isinstance(pat, list):
+    if isinstance(pat, list) and pat[0] == "at":
+        acc.feature("boundary_bits")
+    elif isinstance(pat, list):
         acc.feature("exhaustive_contents")
     if b == 64:
         acc.feature("stride_64")
@@ -120,6 +139,26 @@ def check(case, acc):
         if o != [vals[i] for i in lst]:
             acc.fail("position-list-wrong", (lst, [vals[i] for i in lst]), o)
             break
+    # the same packed object observed repeatedly: no read may disturb a later one
+    acc.feature("same_object_sequence")
+    one = attempt(lambda: BitArray.pack(arr.copy(), b))
+    if not is_refused(one):
+        seq = []
+        ws = [w for w in (1, 2, p // 2, p) if 1 <= w <= min(n, p)]
+        for w in ws:
+            seq.append(("window", w, [sum(vals[i + j] << (b * j) for j in range(w)) for i in range(n - w + 1)],
+                        lambda w=w: [int(x) for x in one.sliding_window(w)]))
+            seq.append(("unpack-after-window", w, vals, lambda: [int(x) for x in one.unpack()]))
+        if n:
+            seq.append(("element-after-window", 0, vals[n - 1], lambda: int(one[n - 1])))
+            seq.append(("list-after-window", 0, vals[::-1], lambda: [int(x) for x in one[list(range(n))[::-1]].unpack()]))
+            seq.append(("unpack-after-list", 0, vals, lambda: [int(x) for x in one.unpack()]))
+        for name, w, e, f in seq:
+            o = attempt(f)
+            acc.trans()
+            if o != e:
+                acc.fail(f"same-object:{name}", (w, e), o)
+                break
     for w in range(1, p + 1):
         if w > n:
             break
